@@ -239,6 +239,23 @@ impl<'a> CompilerState<'a> {
         v
     }
 
+    fn parse_int(&self, p: Pair<Rule>) -> Result<i32, Error> {
+        let start = p.as_span().start();
+        let res = match p.as_rule() {
+            Rule::decimal => p.as_str().parse::<i32>(),
+            Rule::hexadecimal => i32::from_str_radix(&p.as_str()[2..], 16),
+            Rule::octal => i32::from_str_radix(p.as_str(), 8),
+            Rule::quoted_character => {
+                let s = compile_quoted_string_ex(p.into_inner().next().unwrap().as_str());
+                return Ok(s.chars().next().unwrap() as i32);
+            }
+            _ => {
+                unreachable!()
+            }
+        };
+        res.map_err(|_| self.syntax_error("Integer literal too large", start))
+    }
+
     pub fn syntax_error(&self, message: &str, loc: usize) -> Error {
         let mut line_number: usize = 0;
         // loc is a byte offset (text outside the ASCII range may come from included assembler files)
@@ -436,9 +453,9 @@ impl<'a> CompilerState<'a> {
             .pratt
             .map_primary(|primary| -> Result<Expr, Error> {
                 match primary.as_rule() {
-                    Rule::int => Ok(Expr::Integer(parse_int(
+                    Rule::int => Ok(Expr::Integer(self.parse_int(
                         primary.into_inner().next().unwrap(),
-                    ))),
+                    )?)),
                     Rule::expr => {
                         let next_literal = *literal_counter.lock().unwrap();
                         let res = self.parse_expr_ex_from(primary.into_inner(), next_literal)?;
@@ -610,9 +627,9 @@ impl<'a> CompilerState<'a> {
             .pratt_init_value
             .map_primary(|primary| -> Result<Expr, Error> {
                 match primary.as_rule() {
-                    Rule::int => Ok(Expr::Integer(parse_int(
+                    Rule::int => Ok(Expr::Integer(self.parse_int(
                         primary.into_inner().next().unwrap(),
-                    ))),
+                    )?)),
                     Rule::expr => {
                         let next_literal = *literal_counter.lock().unwrap();
                         let res = self.parse_expr_ex_from(primary.into_inner(), next_literal)?;
@@ -845,7 +862,7 @@ impl<'a> CompilerState<'a> {
                                 case_set = (Vec::<i32>::new(), Vec::<StatementLoc<'a>>::new());
                                 last_was_a_statement = false;
                             }
-                            case_set.0.push(parse_int(i.into_inner().next().unwrap()));
+                            case_set.0.push(self.parse_int(i.into_inner().next().unwrap())?);
                         }
                         Rule::statement => {
                             case_set.1.push(self.compile_statement(i)?);
@@ -942,14 +959,14 @@ impl<'a> CompilerState<'a> {
                 })
             }
             Rule::csleep_statement => {
-                let s = parse_int(
+                let s = self.parse_int(
                     pair.into_inner()
                         .next()
                         .unwrap()
                         .into_inner()
                         .next()
                         .unwrap(),
-                );
+                )?;
                 Ok(StatementLoc {
                     pos,
                     label: None,
@@ -1028,7 +1045,7 @@ impl<'a> CompilerState<'a> {
         self.calculator
             .map_primary(|primary| -> Result<i32, Error> {
                 match primary.as_rule() {
-                    Rule::int => Ok(parse_int(primary.into_inner().next().unwrap())),
+                    Rule::int => self.parse_int(primary.into_inner().next().unwrap()),
                     Rule::calc_expr => Ok(self.parse_calc(primary.into_inner())?),
                     Rule::calc_sizeof => Ok(self.parse_sizeof(primary.into_inner())?),
                     rule => unreachable!("parse_calc expected atom, found {:?}", rule),
@@ -1432,14 +1449,14 @@ impl<'a> CompilerState<'a> {
                                                     }
                                                     Rule::ptr_offset => {
                                                         let sign = if x.as_str().starts_with("-") { -1 } else { 1 };
-                                                        let offset = parse_int(
+                                                        let offset = self.parse_int(
                                                             x.into_inner()
                                                                 .next()
                                                                 .unwrap()
                                                                 .into_inner()
                                                                 .next()
                                                                 .unwrap(),
-                                                        );
+                                                        )?;
                                                         match pxx.next() {
                                                         Some(x) => match x.as_rule() {
                                                             Rule::ptr_low => {
@@ -1541,7 +1558,7 @@ impl<'a> CompilerState<'a> {
                                                                 },
                                                                 Rule::ptr_offset => {
                                                                     let sign = if x.as_str().starts_with("-") { -1 } else { 1 };
-                                                                    let offset = parse_int(x.into_inner().next().unwrap().into_inner().next().unwrap());
+                                                                    let offset = self.parse_int(x.into_inner().next().unwrap().into_inner().next().unwrap())?;
                                                                     match pxxx.next() {
                                                                         Some(x) => match x.as_rule() {
                                                                             Rule::ptr_low => {
@@ -1607,7 +1624,7 @@ impl<'a> CompilerState<'a> {
                                                             Some(x) => match x.as_rule() {
                                                                 Rule::ptr_offset => {
                                                                     let sign = if x.as_str().starts_with("-") { -1 } else { 1 };
-                                                                    sign * parse_int(x.into_inner().next().unwrap().into_inner().next().unwrap())
+                                                                    sign * self.parse_int(x.into_inner().next().unwrap().into_inner().next().unwrap())?
                                                                 },
                                                                 _ => return Err(self.syntax_error(&format!("Incorrect suffix to reference {}", s), start))
                                                             },
@@ -2349,21 +2366,6 @@ impl<'a> CompilerState<'a> {
         }
         v.push(char::from_u32(0).unwrap());
         v
-    }
-}
-
-fn parse_int(p: Pair<Rule>) -> i32 {
-    match p.as_rule() {
-        Rule::decimal => p.as_str().parse::<i32>().unwrap(),
-        Rule::hexadecimal => i32::from_str_radix(&p.as_str()[2..], 16).unwrap(),
-        Rule::octal => i32::from_str_radix(p.as_str(), 8).unwrap(),
-        Rule::quoted_character => {
-            let s = compile_quoted_string_ex(p.into_inner().next().unwrap().as_str());
-            s.chars().next().unwrap() as i32
-        }
-        _ => {
-            unreachable!()
-        }
     }
 }
 
